@@ -6,13 +6,39 @@ use std::io::{BufWriter, Write};
 
 mod rng;
 mod c19;
+mod c05;
 
 pub struct Out {
     pub cases: BufWriter<File>,
     pub obs: BufWriter<File>,
     pub stats: std::collections::BTreeMap<String, u64>,
 }
+pub type GOp = (String, Vec<i64>);
+
 impl Out {
+    // ---- generic line grammar: `case id hdr..` / `mnemonic n..` / `end`; observations `tag n..` / `;` per op
+    pub fn case(&mut self, id: usize, hdr: &[i64]) {
+        let h: Vec<String> = hdr.iter().map(|x| x.to_string()).collect();
+        writeln!(self.cases, "case {} {}", id, h.join(" ")).unwrap();
+        writeln!(self.obs, "case {}", id).unwrap();
+    }
+    pub fn op(&mut self, o: &GOp) {
+        let a: Vec<String> = o.1.iter().map(|x| x.to_string()).collect();
+        writeln!(self.cases, "{} {}", o.0, a.join(" ")).unwrap();
+        self.stat(&format!("op_{}", o.0));
+    }
+    pub fn obs_lines(&mut self, lines: &[String]) {
+        for l in lines {
+            writeln!(self.obs, "{}", l).unwrap();
+            let t = l.split_whitespace().next().unwrap_or("").to_string();
+            if t == "panic" || t == "err" || t == "none" || t == "notsorted" { self.stat(&format!("out_{}", t)); }
+        }
+        writeln!(self.obs, ";").unwrap();
+    }
+    pub fn end_case(&mut self) {
+        writeln!(self.cases, "end").unwrap();
+        writeln!(self.obs, "end").unwrap();
+    }
     pub fn stat(&mut self, k: &str) {
         *self.stats.entry(k.to_string()).or_insert(0) += 1;
     }
@@ -44,6 +70,8 @@ fn main() {
             let n: usize = args[4].parse().unwrap();
             match prop {
                 "C19" => c19::gen(seed, n, &mut out),
+                "C05csr" => c05::gen_csr(seed, n, &mut out),
+                "C05list" => c05::gen_list(seed, n, &mut out),
                 _ => { eprintln!("unknown property {}", prop); std::process::exit(2); }
             }
         }
@@ -51,6 +79,8 @@ fn main() {
             let text = std::fs::read_to_string(&args[3]).unwrap();
             match prop {
                 "C19" => c19::replay(&text, &mut out),
+                "C05csr" => for (id, h, ops) in parse_generic(&text) { c05::run_csr_case(id, &h, &ops, &mut out) },
+                "C05list" => for (id, h, ops) in parse_generic(&text) { c05::run_list_case(id, &h, &ops, &mut out) },
                 _ => { eprintln!("unknown property {}", prop); std::process::exit(2); }
             }
         }
@@ -61,4 +91,28 @@ fn main() {
     let mut st = File::create(format!("{}/stats.json", outdir)).unwrap();
     let body: Vec<String> = out.stats.iter().map(|(k, v)| format!("\"{}\": {}", k, v)).collect();
     writeln!(st, "{{{}}}", body.join(", ")).unwrap();
+}
+
+pub fn line(tag: &str, nums: &[i64]) -> String {
+    let mut s = String::from(tag);
+    for n in nums { s.push(' '); s.push_str(&n.to_string()); }
+    s
+}
+
+pub fn parse_generic(text: &str) -> Vec<(usize, Vec<i64>, Vec<GOp>)> {
+    let mut res = Vec::new();
+    let mut cur: Option<(usize, Vec<i64>, Vec<GOp>)> = None;
+    for l in text.lines() {
+        let l = l.trim();
+        if l.is_empty() || l.starts_with('#') { continue; }
+        let t: Vec<&str> = l.split_whitespace().collect();
+        if t[0] == "case" {
+            cur = Some((t[1].parse().unwrap(), t[2..].iter().map(|x| x.parse().unwrap()).collect(), Vec::new()));
+        } else if l == "end" {
+            res.push(cur.take().unwrap());
+        } else {
+            cur.as_mut().unwrap().2.push((t[0].to_string(), t[1..].iter().map(|x| x.parse().unwrap()).collect()));
+        }
+    }
+    res
 }
